@@ -16,7 +16,8 @@ FROZEN = {
     "C05": [T + x for x in ["_KeyForStringMap", "_KeyForPrefixedStringMap", "_keyForPrefixedStringMaps", "_keyForPrefixedStringMapsAsKey", "_appendKeyEscaped",
                             "_insertionSort", "scopeRegistry_Subscope", "scopeRegistry_lockedLookup", "_newScopeRegistryWithShardCount"]],
     "C06": [T + x for x in ["ValidCharacters_sanitizeFn", "_NewSanitizer", "_NewNoOpSanitizer", "_NoOpSanitizeFn", "sanitizer_Name", "sanitizer_Key", "sanitizer_Value",
-                            "_getSanitizeBuffer", "_putSanitizeBuffer"]],
+                            "_getSanitizeBuffer", "_putSanitizeBuffer", "_newScopeRegistryWithShardCount", "scopeRegistry_reportInternalMetrics",
+                            "scopeRegistry_ForEachScope"]],
     "C07": [T + x for x in ["scopeRegistry_Report", "scopeRegistry_CachedReport", "scopeRegistry_Subscope", "scopeRegistry_removeWithRLock", "scopeRegistry_lockedLookup",
                             "scope_Close", "scope_clearMetrics", "scope_report", "scope_cachedReport"]],
     "C08": [T + x for x in ["scope_Close", "scope_reportLoop", "scope_reportLoopRun", "scope_reportRegistry", "scopeRegistry_purge", "scopeRegistry_Report",
